@@ -171,6 +171,11 @@ def batch(prop, tier, sd):
                 break
             members = [pool.pop(rng.randrange(len(pool))) for _ in range(rng.choice([2, 2, 3]))]
             out += ds.make_group('g%03d' % g, members)
+        # two declarations of one file that share their provider functions under different wrappers
+        for g in range(4 if quick else 30):
+            if not pool:
+                break
+            out += ds.shared_group(rng, 'h%03d' % g, pool.pop(rng.randrange(len(pool))))
     # unique ids
     seen = set()
     res = []
